@@ -53,6 +53,12 @@ func deepSame(a, b interface{}) bool {
 	if a == nil || b == nil {
 		return a == nil && b == nil
 	}
+	if fa, ok := a.(float64); ok {
+		// NaN (the output of the catalogue function "fnan") is the same argument as NaN
+		if fb, ok := b.(float64); ok && fa != fa && fb != fb {
+			return true
+		}
+	}
 	va, vb := reflect.ValueOf(a), reflect.ValueOf(b)
 	if va.Type() != vb.Type() {
 		return false
